@@ -337,6 +337,8 @@ func (fx *FX) specVal(x *SX, env *SEnv, cur, old *State) Val {
 					pats.WriteString(")")
 				}
 				bt = fmt.Sprintf("(! %s%s)", bt, pats.String())
+			} else if ap := autoPattern(bt, x.Vars, env.depth); ap != "" {
+				bt = fmt.Sprintf("(! %s :autopattern (%s))", bt, ap)
 			}
 			return Val{T: fmt.Sprintf("(forall (%s) %s)", strings.Join(decls, " "), bt), S: SBool}
 		}
@@ -1103,4 +1105,100 @@ func isConstOrParam(v ssa.Value) bool {
 		return true
 	}
 	return false
+}
+
+// autoPattern proposes a trigger for a contract-level universal quantifier: for every bound variable the smallest
+// element read "(select A (sidx S v))" or map-row read "(select (select M r) v)" of the body that mentions it (and no
+// variable of an inner quantifier). Empty when some variable has no such term.
+func autoPattern(body string, vars []SVarDecl, depth int) string {
+	names := make([]string, len(vars))
+	for i, vd := range vars {
+		names[i] = fmt.Sprintf("%s!b%d", vd.Name, depth+i)
+	}
+	inner := func(t string) bool {
+		// mentions a variable bound deeper than this quantifier, or a nested annotation / binder
+		if strings.Contains(t, "(forall ") || strings.Contains(t, "(exists ") || strings.Contains(t, ":autopattern") || strings.Contains(t, ":pattern") {
+			return true
+		}
+		for _, m := range boundRe.FindAllString(t, -1) {
+			var d int
+			if _, err := fmt.Sscanf(m[2:], "%d", &d); err == nil && m[1] == 'b' && d >= depth+len(vars) {
+				return true
+			}
+			if m[1] == 'l' {
+				return true
+			}
+		}
+		return false
+	}
+	hasVar := func(t, v string) bool {
+		for i := 0; ; {
+			j := strings.Index(t[i:], v)
+			if j < 0 {
+				return false
+			}
+			k := i + j + len(v)
+			if k == len(t) || t[k] == ' ' || t[k] == ')' {
+				return true
+			}
+			i = k
+		}
+	}
+	best := map[string]string{}
+	// enumerate subterms
+	var stack []int
+	for i := 0; i < len(body); i++ {
+		switch body[i] {
+		case '(':
+			stack = append(stack, i)
+		case ')':
+			if len(stack) == 0 {
+				return ""
+			}
+			st := stack[len(stack)-1]
+			stack = stack[:len(stack)-1]
+			t := body[st : i+1]
+			if !strings.HasPrefix(t, "(select ") || len(t) > 600 || inner(t) {
+				continue
+			}
+			for _, v := range names {
+				// the variable is the index of this read: "... (sidx S v))" or "... v)"
+				if !(strings.HasSuffix(t, " "+v+")") || strings.HasSuffix(t, " "+v+"))")) {
+					continue
+				}
+				if strings.HasSuffix(t, " "+v+"))") && !strings.Contains(t, "(sidx ") {
+					continue
+				}
+				if cur, ok := best[v]; !ok || len(t) < len(cur) {
+					best[v] = t
+				}
+			}
+		}
+	}
+	var parts []string
+	seen := map[string]bool{}
+	for _, v := range names {
+		t, ok := best[v]
+		if !ok {
+			// covered by a term chosen for another variable?
+			covered := false
+			for _, u := range best {
+				if hasVar(u, v) {
+					covered = true
+				}
+			}
+			if !covered {
+				return ""
+			}
+			continue
+		}
+		if !seen[t] {
+			seen[t] = true
+			parts = append(parts, t)
+		}
+	}
+	if len(parts) == 0 {
+		return ""
+	}
+	return strings.Join(parts, " ")
 }
